@@ -24,6 +24,9 @@ CATALOGS = {
     'names': dict(integrations=['int1', 'int2']),
     'dicts': dict(integrations=[{'name': 'int1', 'type': 'data'}, {'name': 'int2', 'type': 'data'}], default_namespace='mindsdb'),
     'default_int1': dict(integrations=['int1', 'int2'], default_namespace='int1'),
+    # the optional class_type key present with None / with the value sql
+    'class_type_none': dict(integrations=[{'name': 'int1', 'type': 'data', 'class_type': None}, {'name': 'int2', 'type': 'data', 'class_type': None}]),
+    'class_type_sql': dict(integrations=[{'name': 'int1', 'type': 'data', 'class_type': 'sql'}, {'name': 'int2', 'type': 'data', 'class_type': 'sql'}], default_namespace='mindsdb'),
     # a project that owns models named like tables (and like schema.table paths) of the integration
     'colliding_models': dict(integrations=['int1', 'int2', {'name': 'sch', 'type': 'project'}, {'name': 'mindsdb', 'type': 'project'}], default_namespace='mindsdb',
                              predictor_metadata=[dict(name='t1', integration_name='sch'), dict(name='t3', integration_name='sch'), dict(name='t1', integration_name='mindsdb')]),
@@ -205,13 +208,16 @@ class CHECK(Check):
         if self.tier == 'quick':
             for a in qgen.assignments(c06.FEATURES, 1):
                 if c06.build(a) is not None:
-                    for cat in ('dicts', 'default_int1'):
+                    for cat in ('dicts', 'default_int1', 'class_type_none', 'class_type_sql'):
                         out.append(('model', tuple(a[n] for n in c06.FEATURES), cat))
         for label, sql in EXTRA:
             for cat in CATALOGS:
                 out.append(('extra', label, cat))
         for label, sql in EXTRA_DEFAULT_NS:
             out.append(('extra', label, 'default_int1'))
+        # the extra shapes again after planners over catalogs in which the same names are projects were used in the process
+        for label, sql in EXTRA:
+            out.append(('extra', label, 'names+history'))
         for label, sql in NEGATIVE:
             out.append(('negative', label, None))
         # the integration under other names: all extra shapes and the model with <= 1 non-default feature (thorough 2)
@@ -242,6 +248,9 @@ class CHECK(Check):
         """-> list of (kind, detail, message)"""
         iname = 'int1'
         catalog = None
+        history = cat.endswith('+history')
+        if history:
+            cat = cat[:-len('+history')]
         if '@' in cat:
             cat0, iname = cat.split('@')
             sql, full, catalog = rename(sql, iname), rename(full, iname), rename(copy.deepcopy(CATALOGS[cat0]), iname)
@@ -253,6 +262,9 @@ class CHECK(Check):
                 res.count('not_parsed')
             return []
         orig = parsing.outcome(sql, 'mindsdb').value
+        if history:
+            from vf.props.c10 import role_swap_prelude
+            role_swap_prelude()
         try:
             plan = plan_query(out.value, **catalog)
         except (PlanningException, NotImplementedError) as e:
